@@ -196,6 +196,10 @@ def run(ctx):
                   'a datagram for an unknown SPI is dropped without changing anything', key=('D1', 'unknown-spi-effect'),
                   site=ctx.site(dm, c.node))
     lookup_by_spi(ctx, 'D1')
+    # what the dispatch goes by - exchange type, the R and I flags, the SPIs - is what the fixed header says: each field from its own
+    # octets, each flag from its own bit (a reserved bit must not turn a request into a response), shared with C05 W2
+    from .c05 import check_header
+    check_header(ctx, esc, 'D1')
     init_request_gets_fresh_ike_sa(ctx, 'D1')
     # responder creation
     ctors = DM.calls_to(callee='new ikesa.IkeSa')
